@@ -148,7 +148,30 @@ func (m *machine) compareReads(what string, readers []db.KeyValueReader, names [
 		if err != nil || has != wantOK {
 			m.fail("has", "%s %s.Has(%x) = %v,%s want %v,nil", what, names[i], key, has, errClass(err), wantOK)
 		}
+		// the same read with a callback that FAILS (a decoder rejecting the value): the callback's error comes back, the
+		// callback runs exactly once for a present key and not at all for a missing one - on every reader kind alike
+		calls := 0
+		err = r.Get(key, func([]byte) error { calls++; return errCallback })
+		if wantOK {
+			if !errors.Is(err, errCallback) || calls != 1 {
+				m.fail("get-failing-callback", "%s %s.Get(%x, failing callback) = %s after %d calls, want the callback's error after 1 call", what, names[i], key, errClass(err), calls)
+			}
+		} else if !errors.Is(err, db.ErrKeyNotFound) || calls != 0 {
+			m.fail("get-failing-callback", "%s %s.Get(%x, failing callback) on a missing key = %s after %d calls, want ErrKeyNotFound and no call", what, names[i], key, errClass(err), calls)
+		}
 	}
+}
+
+var errCallback = errors.New("callback rejects the value")
+
+// closeNoPanic closes a store; a panic inside Close (e.g. a leaked reference into the block/file cache) is reported as an error.
+func closeNoPanic(s interface{ Close() error }) (err error) {
+	defer func() {
+		if r := recover(); r != nil {
+			err = fmt.Errorf("Close PANICKED: %v", r)
+		}
+	}()
+	return s.Close()
 }
 
 func (m *machine) names() []string {
@@ -752,7 +775,9 @@ func TestPropReopen(t *testing.T) {
 			bk := open()
 			defer func() {
 				for _, b := range bk {
-					b.s.Close()
+					if err := closeNoPanic(b.s); err != nil {
+						c.Violation("close", "%s final close: %v", b.name, err)
+					}
 				}
 			}()
 			rounds := rapid.IntRange(1, 4).Draw(rt, "rounds")
@@ -793,13 +818,45 @@ func TestPropReopen(t *testing.T) {
 					}
 				}
 				for _, b := range bk {
-					if err := b.s.Close(); err != nil {
+					if err := closeNoPanic(b.s); err != nil {
 						c.Violation("close", "%s close: %v", b.name, err)
 					}
 				}
 				bk = open()
 				m := &machine{t: rt, c: c, bk: bk, model: model}
 				m.finalScan()
+				// point reads on the reopened stores (values now come from tables, not from the memtable) through every reader
+				// kind, with succeeding and failing callbacks; the next Close (or the deferred one) must still work
+				for q := rapid.IntRange(0, 4).Draw(rt, "readsAfterReopen"); q > 0; q-- {
+					k := genKey(1).Draw(rt, "readKey")
+					kind := rapid.IntRange(0, 3).Draw(rt, "readerKind")
+					c.Fp("read %x via %d", k, kind)
+					var readers []db.KeyValueReader
+					var names []string
+					var closers []func() error
+					for _, b := range bk {
+						switch kind {
+						case 0:
+							readers, names = append(readers, b.s), append(names, b.name)
+						case 1:
+							sn := b.s.NewSnapshot()
+							readers, names, closers = append(readers, sn), append(names, b.name+"/snapshot"), append(closers, sn.Close)
+						case 2:
+							ib := b.s.NewIndexedBatch()
+							readers, names, closers = append(readers, ib), append(names, b.name+"/indexed-batch"), append(closers, ib.Close)
+						default: // the store again, while an unrelated write-only batch is open and then dropped
+							bt := b.s.NewBatch()
+							readers, names, closers = append(readers, b.s), append(names, b.name), append(closers, bt.Close)
+						}
+					}
+					m.compareReads("after reopen", readers, names, model, k)
+					c.NonTrivial("failing-callback-read-after-reopen")
+					for _, cl := range closers {
+						if err := cl(); err != nil {
+							c.Violation("reader-close", "closing a reader after reads: %v", err)
+						}
+					}
+				}
 			}
 		})
 }
